@@ -14,7 +14,7 @@ RULE = ("corpus scripts with their data plus generated multi-type datasets (ever
         "quoting); _scalars.csv holds exactly the returned scalar names and values; returned datasets carry no data. "
         "Bucket = (source, format, return_only_persistent, type set, scalars present); zero-row datasets are trivial.")
 ASSUMPTIONS = ["the in-memory run of the same call is the reference for the file content (its own correctness is C01-C10's subject)"]
-FLOORS = {"quick": (200, 20), "thorough": (3000, 40)}
+FLOORS = {"quick": (100, 15), "thorough": (3000, 40)}
 NSH = 16
 
 
